@@ -283,6 +283,57 @@ func (c *Ctx) writeSitesIn(fn *ssa.Function) []writeSite {
 // inOnceDo: fn is a function literal passed directly to (*sync.Once).Do
 // (as a closure, or as a plain function value when it captures nothing).
 func (c *Ctx) inOnceDo(fn *ssa.Function) bool {
+	return c.inOnceDoRec(fn, map[*ssa.Function]bool{})
+}
+
+func (c *Ctx) inOnceDoRec(fn *ssa.Function, seen map[*ssa.Function]bool) bool {
+	if seen[fn] {
+		return false
+	}
+	seen[fn] = true
+	if c.passedToOnceDo(fn) {
+		return true
+	}
+	// a named function that is only ever called from code running under Once.Do
+	sites := c.callsTo(fn)
+	if len(sites) == 0 || fn.Parent() != nil {
+		return false
+	}
+	for _, site := range sites {
+		if !c.inOnceDoRec(site.Parent(), seen) {
+			return false
+		}
+	}
+	// and never used as a value elsewhere
+	return !c.usedAsValueOutsideOnce(fn)
+}
+
+// usedAsValueOutsideOnce: fn appears as an operand other than as the callee of a call or the argument of Once.Do.
+func (c *Ctx) usedAsValueOutsideOnce(fn *ssa.Function) bool {
+	for _, f := range c.srcFns {
+		for _, b := range f.Blocks {
+			for _, ins := range b.Instrs {
+				for _, op := range ins.Operands(nil) {
+					if op == nil || *op != ssa.Value(fn) {
+						continue
+					}
+					if ci, ok := ins.(ssa.CallInstruction); ok {
+						if ci.Common().Value == ssa.Value(fn) {
+							continue
+						}
+						if sc := ci.Common().StaticCallee(); sc != nil && funcFullName(sc) == "sync.(*Once).Do" {
+							continue
+						}
+					}
+					return true
+				}
+			}
+		}
+	}
+	return false
+}
+
+func (c *Ctx) passedToOnceDo(fn *ssa.Function) bool {
 	isDo := func(ins ssa.Instruction) bool {
 		call, ok := ins.(ssa.CallInstruction)
 		if !ok {
@@ -301,8 +352,8 @@ func (c *Ctx) inOnceDo(fn *ssa.Function) bool {
 			}
 		}
 	}
-	if fn.Parent() != nil {
-		for _, b := range fn.Parent().Blocks {
+	for _, f := range c.srcFns {
+		for _, b := range f.Blocks {
 			for _, ins := range b.Instrs {
 				if !isDo(ins) {
 					continue
